@@ -35,10 +35,11 @@ def _hostf(*a):
 
 def node_step(k: int, n: int, nch: int, r0: bool, r1: bool, r2: bool, r3: bool, fail: int, calls: int) -> None:
     """
-    pre: k >= 0 and n >= 1 and 0 <= nch <= 2 and -1 <= fail <= 3 and 0 <= calls <= 2
+    pre: k >= 0 and n >= 1 and 0 <= nch <= 4 and -1 <= fail <= 7 and 0 <= calls <= 4
     post: True
     """
     hlib.enter(locals())
+    hlib.assume(hlib.deep() or (nch <= 2 and fail <= 3 and calls <= 2))
     kind, op = hlib.PARAM["kind"], hlib.PARAM["op"]
     log = []
     node, stubs = build(kind, op, log, [Tok(r0), Tok(r1), Tok(r2), Tok(r3)], nch, fail, value=7)
@@ -116,10 +117,11 @@ def _names(a, b, c, l, j, probe, swallow=False):
 
 def api_budget(n: int, a: int, b: int, c: bool, l: List[int], j: int) -> None:
     """
-    pre: n >= 1 and len(l) <= 3 and 0 <= j <= 3 and 0 <= a <= 3
+    pre: n >= 1 and len(l) <= 5 and 0 <= j <= 5 and 0 <= a <= 6
     post: True
     """
     hlib.enter(locals())
+    hlib.assume(hlib.deep() or (len(l) <= 3 and j <= 3 and a <= 3))
     text = hlib.PARAM["text"]
     api_reset()
     out = run_eval(text, _names(a, b, c, l, j, Probe()), n)
@@ -146,10 +148,11 @@ def api_default_budget(a: int, b: int, c: bool) -> None:
 
 def api_monotone(n: int, d: int, a: int, b: int, c: bool, l: List[int], j: int) -> None:
     """
-    pre: n >= 1 and d >= 0 and len(l) <= 3 and 0 <= j <= 3 and 0 <= a <= 3
+    pre: n >= 1 and d >= 0 and len(l) <= 5 and 0 <= j <= 5 and 0 <= a <= 6
     post: True
     """
     hlib.enter(locals())
+    hlib.assume(hlib.deep() or (len(l) <= 3 and j <= 3 and a <= 3))
     text = hlib.PARAM["text"]
     p0, p1, p2 = Probe(), Probe(), Probe()
     n0, n1, n2 = _names(a, b, c, l, j, p0), _names(a, b, c, l, j, p1), _names(a, b, c, l, j, p2)
